@@ -12,8 +12,19 @@ import Toodee.Impl.Recv
 namespace Toodee.Driver
 open Toodee
 
-inductive Elem | u32 | cell | zst
+inductive Elem | u32 | cell | zst | unit
 deriving DecidableEq, Repr
+
+/-- zero-sized kinds: positions are not observable, every value is 0 (`zst` = a ledgered unit struct with `Drop`; `unit` = `()`,
+    the only kind whose arrays can be huge) -/
+def Elem.isZst : Elem → Bool
+  | .zst | .unit => true
+  | _ => false
+
+/-- kinds with a drop ledger -/
+def Elem.ledgered : Elem → Bool
+  | .cell | .zst => true
+  | _ => false
 
 /-- a resolved receiver: the Impl-model's `Recv` (Impl/Recv.lean) over the driver's element representation -/
 abbrev Recv := Toodee.Recv Nat
